@@ -456,3 +456,98 @@ pub fn render_deco(g: &AGrammar, d: &Deco) -> String {
     }
     s
 }
+
+/// Can some rule derive just itself (`A =>+ A`)? Edges `A -> B` for productions `A: α B β` with
+/// `α`, `β` nullable; a cycle in that graph is a derivation cycle.
+pub fn has_derivation_cycle(g: &YaccGrammar<u32>) -> bool {
+    let firsts = g.firsts();
+    let n = usize::from(g.rules_len());
+    let mut edge = vec![vec![false; n]; n];
+    for p in g.iter_pidxs() {
+        let a = usize::from(g.prod_to_rule(p));
+        let prod = g.prod(p);
+        for (i, s) in prod.iter().enumerate() {
+            if let Symbol::Rule(b) = s {
+                let others_nullable = prod.iter().enumerate().all(|(j, x)| {
+                    j == i || match x {
+                        Symbol::Rule(r) => firsts.is_epsilon_set(*r),
+                        Symbol::Token(_) => false,
+                    }
+                });
+                if others_nullable {
+                    edge[a][usize::from(*b)] = true;
+                }
+            }
+        }
+    }
+    // transitive closure
+    for k in 0..n {
+        for i in 0..n {
+            if edge[i][k] {
+                for j in 0..n {
+                    if edge[k][j] {
+                        edge[i][j] = true;
+                    }
+                }
+            }
+        }
+    }
+    (0..n).any(|i| edge[i][i])
+}
+
+/// Hidden left recursion: `A =>+ α A β` where `α` is a NON-EMPTY sequence of nullable symbols
+/// somewhere along the cycle. An LR automaton for such a grammar has a conflict, and when it is
+/// resolved in favour of reducing the empty production the LR loop never terminates (as in Yacc).
+pub fn has_hidden_left_recursion(g: &YaccGrammar<u32>) -> bool {
+    let firsts = g.firsts();
+    let n = usize::from(g.rules_len());
+    // edge[a][b] = (exists, exists-with-hidden-prefix)
+    let mut plain = vec![vec![false; n]; n];
+    let mut hidden = vec![vec![false; n]; n];
+    for p in g.iter_pidxs() {
+        let a = usize::from(g.prod_to_rule(p));
+        let prod = g.prod(p);
+        for (i, s) in prod.iter().enumerate() {
+            if let Symbol::Rule(b) = s {
+                plain[a][usize::from(*b)] = true;
+                if i > 0 {
+                    hidden[a][usize::from(*b)] = true;
+                }
+            }
+            let nullable = match s {
+                Symbol::Rule(r) => firsts.is_epsilon_set(*r),
+                Symbol::Token(_) => false,
+            };
+            if !nullable {
+                break;
+            }
+        }
+    }
+    // reach[a][b]: left-corner reachability; hreach: through at least one hidden edge
+    let mut reach = plain.clone();
+    let mut hreach = hidden.clone();
+    for _ in 0..n {
+        for a in 0..n {
+            for k in 0..n {
+                if reach[a][k] {
+                    for b in 0..n {
+                        if reach[k][b] {
+                            reach[a][b] = true;
+                        }
+                        if hreach[k][b] || (hreach[a][k] && reach[k][b]) {
+                            hreach[a][b] = true;
+                        }
+                    }
+                }
+                if hreach[a][k] {
+                    for b in 0..n {
+                        if reach[k][b] {
+                            hreach[a][b] = true;
+                        }
+                    }
+                }
+            }
+        }
+    }
+    (0..n).any(|a| hreach[a][a])
+}
